@@ -722,8 +722,13 @@ class World:
             base = action.get('base')
             heads = self.heads()
             if base not in heads:
-                base = sorted(h for h in heads
-                              if h.startswith('development/'))[0]
+                devs = sorted(h for h in heads
+                              if h.startswith('development/'))
+                if not devs:
+                    log['skipped'] = True
+                    self.third_party_log.append(log)
+                    return
+                base = devs[0]
             self.ugit('checkout', '-q', '-B', name, 'origin/' + base)
             sha = self._ucommit('tp_%d.txt' % self.ncommit, 'third party',
                                 'dave')
@@ -747,6 +752,14 @@ class World:
                                         'third party push', 'dave')
                     self.ugit('push', '-q', 'origin', name)
                 log.update(name=name, sha=sha)
+        elif do == 'delete_branch':
+            # the owner of a foreign branch deletes it
+            name = action['name']
+            if name in self.heads():
+                self.ugit('push', '-q', 'origin', ':' + name, check=False)
+                log.update(name=name, deleted=True)
+            else:
+                log['skipped'] = True
         elif do == 'push_tag':
             # somebody publishes an (annotated) tag of that name first
             name = action['name']
